@@ -170,6 +170,19 @@ pub fn run(ctx: &mut Ctx) {
                 let k = 4 + r.below(3);
                 histories.push((0..k).map(|_| *r.pick(&pairs)).collect());
             }
+            // soak histories: state that creeps by one per failing render (a counter never
+            // decremented on the error path, a slot never returned) only shows after many of
+            // them -- every failing (template, data) pair 130 times in a row on one parser, then
+            // every pair once
+            let failing: Vec<(usize, usize)> = pairs.iter().copied().filter(|&(t, d)| !expected[t][d].starts_with("ok:")).collect();
+            let n_soak = ctx.scale(3usize, 12usize);
+            for k in 0..n_soak.min(failing.len()) {
+                // the designed templates are the last two: prefer their failing pairs
+                let f = failing[failing.len() - 1 - k];
+                let mut h: Vec<(usize, usize)> = vec![f; 130];
+                h.extend(pairs.iter().copied());
+                histories.push(h);
+            }
             for hist in &histories {
                 let hh = hash_combine(ph, hash_str(&format!("{}{:?}", policy.name(), hist)));
                 let nontrivial = hist.len() >= 2;
@@ -189,7 +202,7 @@ pub fn run(ctx: &mut Ctx) {
                     }
                 }
                 ctx.record(hh, nontrivial);
-                ctx.count(&format!("histories:len{}", hist.len()));
+                ctx.count(&format!("histories:len{}", if hist.len() > 100 { "-soak".to_string() } else { hist.len().to_string() }));
             }
         }
         ctx.sample(|| json!({"mains": p.mains, "partials": p.partials, "n_data": p.datas.len()}));
